@@ -257,10 +257,23 @@ func checkOne(w Witness) (law, msg string) {
 func genCase(r *gen.RNG, nTables, maxLen int, forceLen int) Witness {
 	var w Witness
 	tag := uint32(r.Intn(0x100))
+	// half of the cases spread their tags over the whole unsigned 32-bit range (first byte
+	// >= 0x80 included), the others stay in the low range where real tags live
+	wide := r.Bool()
 	for i := 0; i < nTables; i++ {
-		tag += 1 + uint32(r.Intn(0x01000000))
+		step := uint64(0x01000000)
+		if wide {
+			step = (uint64(1)<<32 - uint64(tag) - 1) / uint64(nTables-i)
+		}
+		if step < 1 {
+			step = 1
+		}
+		tag += 1 + uint32(r.U64()%step)
 		if i == 0 && r.Chance(1, 6) {
 			tag = 0 // the smallest tag is a legal one
+		}
+		if wide && i == nTables-1 && r.Chance(1, 4) {
+			tag = 0xFFFFFFFF // and so is the largest
 		}
 		l := forceLen
 		if l < 0 {
@@ -279,6 +292,18 @@ func genCase(r *gen.RNG, nTables, maxLen int, forceLen int) Witness {
 		}
 		if l > 0 && r.Chance(1, 3) {
 			c[l-1] = 0xFF // make a lost last byte visible in the checksum
+		}
+		if i > 0 && r.Chance(1, 8) {
+			// same length and same sfnt checksum as the previous table, different bytes: its
+			// 32-bit words in another order (the last, possibly partial, word stays in place)
+			p := w.Tables[i-1].Content
+			if words := len(p) / 4; words >= 2 {
+				c = append([]byte(nil), p...)
+				k := 1 + r.Intn(words-1)
+				for j := 0; j < words; j++ {
+					copy(c[4*j:4*j+4], p[4*((j+k)%words):])
+				}
+			}
 		}
 		w.Tables = append(w.Tables, TableSpec{Tag: tag, Content: c, Spare: r.Intn(8)})
 	}
